@@ -930,7 +930,8 @@ def behavioural(ctx, usable, tier, rng, export_budget_s, only=None):
     out = {"callables": 0, "callables_with_a_valid_plain_call": 0, "forms_x_values": 0, "substitute_does_not_bind_form(sig finding)": 0,
            "original_raises": 0, "J_same": 0, "J_explicitly_rejected": 0, "J_cannot_evaluate": 0, "J_plain_call_differs": [],
            "E_tried": 0, "E_same": 0, "E_explicitly_rejected": 0, "E_fails_like_the_plain_call": 0, "E_model_refused_by_onnxruntime": [],
-           "E_plain_call_export_differs_or_fails": [], "E_budget_exhausted": False, "failures": []}
+           "E_plain_call_export_differs_or_fails": [], "E_budget_exhausted": False, "failures": [],
+           "plain_call_needs_concrete_values": [], "original_itself_untraceable_for_form": 0}
     pairs = tier != "quick"
     try:        # XLA's persistent compilation cache: the eager side compiles one small kernel per (function, static argument)
         jax.config.update("jax_compilation_cache_dir", os.environ.get("VERIF_JAX_CACHE", "/tmp/verif_c19_jaxcache"))
@@ -957,6 +958,12 @@ def behavioural(ctx, usable, tier, rng, export_budget_s, only=None):
             for pname, mk in _profiles():
                 arrays = [mk(i) for i in range(len(req))]
                 st, base = _outcome(f, *arrays)
+                if st == "ok":          # the arrays become traced inputs: JAX itself must be able to trace the plain call
+                    try:
+                        jax.make_jaxpr(lambda *xs, _f=f: _f(*xs))(*arrays)
+                    except BaseException:
+                        st = "untraceable"
+                        out["plain_call_needs_concrete_values"].append(f"{name} on {pname}")
                 if st == "ok" and base and all(b.dtype.kind in "fiub" for b in base):
                     valid.append((pname, arrays, base))
                     if tier == "quick":
@@ -1097,6 +1104,20 @@ def behavioural(ctx, usable, tier, rng, export_budget_s, only=None):
                 out["failures"].append({"key": f"arg {c['text']}", "callable": c["name"], "form": c["text"], "parameter": c["form"].param,
                                         "spelling": c["form"].spelling, "inputs": c["profile"], "path": "export + onnxruntime",
                                         "how": how, "fails": False})
+        # a form the substitute refuses although the original accepts it EAGERLY: not a finding when JAX itself cannot trace
+        # the original with these inputs as tracers either (value-dependent code); checked outside the patched world
+        by_text = {c.get("text"): c for c in cases if not c["plain"]}
+        kept = []
+        for fl in out["failures"]:
+            c = by_text.get(fl["form"])
+            if fl["fails"] and c is not None:
+                try:
+                    jax.make_jaxpr(c["call"])(*c["inputs"])
+                except BaseException:
+                    out["original_itself_untraceable_for_form"] += 1
+                    continue
+            kept.append(fl)
+        out["failures"] = kept
     finally:
         logging.disable(logging.NOTSET)
     out["wall_s"] = round(time.time() - t0, 1)
